@@ -8,13 +8,13 @@ open Req.Result Req.Props.C18
 
 /-- "target supplied, success state, carries content, unmarshals" for the http response `h`. -/
 def SuccessRHS (s : Stack) (h : Http) : Prop :=
-  s.successTarget = true ∧ stateOf h = .success ∧ h.status ≠ noContent ∧ h.readOK = true ∧ codecOK h = true
+  s.successTarget = true ∧ stateOf h = .success ∧ h.status ≠ noContent ∧ h.bodyOK = true ∧ codecOK h = true
 
 def ErrReqRHS (s : Stack) (h : Http) : Prop :=
-  s.errorTarget = true ∧ stateOf h = .error ∧ h.status ≠ noContent ∧ h.readOK = true ∧ codecOK h = true
+  s.errorTarget = true ∧ stateOf h = .error ∧ h.status ≠ noContent ∧ h.bodyOK = true ∧ codecOK h = true
 
 def ErrCommonRHS (s : Stack) (h : Http) : Prop :=
-  s.errorTarget = false ∧ s.commonErr = true ∧ stateOf h = .error ∧ h.status ≠ noContent ∧ h.readOK = true ∧ codecOK h = true
+  s.errorTarget = false ∧ s.commonErr = true ∧ stateOf h = .error ∧ h.status ≠ noContent ∧ h.bodyOK = true ∧ codecOK h = true
 
 /-- The slots of `r` are exactly what the http response it carries calls for. -/
 def Agrees (s : Stack) (r : Resp) : Prop :=
@@ -30,16 +30,16 @@ theorem Agrees.of_eq {s : Stack} {r r' : Resp} (h : Agrees s r) (h1 : r'.http = 
     Agrees s r' := by
   unfold Agrees at h ⊢; rw [h1, h2]; exact h
 
-/-- After the auto-read block, "no error recorded and the body is or can be read" is `readOK`. -/
+/-- After the auto-read block, "no error recorded and the body is or can be read" is `bodyOK` (reads and transforms). -/
 theorem autoRead_ready (s : Stack) (r : Resp) (h : Http) (hh : r.http = some h) (he : r.err = none) (hb : r.bodyCached = false) :
     (autoRead s r).1.http = some h ∧ (autoRead s r).1.slots = r.slots ∧
-    (((autoRead s r).1.err = none ∧ ((autoRead s r).1.bodyCached = true ∨ h.readOK = true)) ↔ h.readOK = true) := by
+    (((autoRead s r).1.err = none ∧ ((autoRead s r).1.bodyCached = true ∨ h.bodyOK = true)) ↔ h.bodyOK = true) := by
   unfold autoRead
   simp only [hh]
   split
   · split
-    · rename_i hr; simp [he, hr]
-    · rename_i hr; simp [hr]
+    · rename_i hr; simp [he, hr, Http.bodyOK]
+    · rename_i hr; simp [hr, Http.bodyOK]
   · simp [hh, he, hb]
 
 theorem autoRead_nohttp (s : Stack) (r : Resp) (hh : r.http = none) : (autoRead s r).1 = r := by
@@ -58,7 +58,7 @@ theorem readParse_agrees (s : Stack) (r : Resp) (hs : r.slots = {}) (hb : r.body
     simp [bindIn, hh, hs]
   · obtain ⟨h1, h2, h3⟩ := autoRead_ready s r h hh (he (by simp [hh])) hb
     generalize (autoRead s r).1 = r' at h1 h2 h3
-    have hready : Ready (bindIn s r') h ↔ (h.readOK = true ∧ codecOK h = true) := by
+    have hready : Ready (bindIn s r') h ↔ (h.bodyOK = true ∧ codecOK h = true) := by
       unfold Ready
       simp only [bindIn]
       constructor
@@ -107,7 +107,7 @@ theorem readParse_agrees (s : Stack) (r : Resp) (hs : r.slots = {}) (hb : r.body
           simp only [bindIn] at a b c
           refine ⟨⟨by simp, fun ⟨x, y, z, _⟩ => absurd ⟨x, y, z⟩ a⟩, ⟨by simp, fun ⟨x, y, z, _⟩ => absurd ⟨x, y, z⟩ b⟩,
             ⟨fun _ => ⟨c.1, c.2.1, c.2.2.1, c.2.2.2, hr'.1, hr'.2⟩, fun _ => by simp⟩, by simp⟩
-      · have hr' : ¬ (h.readOK = true ∧ codecOK h = true) := fun x => hr (hready.mpr x)
+      · have hr' : ¬ (h.bodyOK = true ∧ codecOK h = true) := fun x => hr (hready.mpr x)
         simp only [hr, if_false]
         refine ⟨⟨by simp, fun ⟨_, _, _, x, y⟩ => absurd ⟨x, y⟩ hr'⟩, ⟨by simp, fun ⟨_, _, _, x, y⟩ => absurd ⟨x, y⟩ hr'⟩,
           ⟨by simp, fun ⟨_, _, _, _, x, y⟩ => absurd ⟨x, y⟩ hr'⟩, by simp⟩
@@ -137,6 +137,15 @@ theorem clientLoop_same (acts : List RespAct) :
     obtain ⟨h3, h4⟩ := clientAct_same r act
     exact ⟨h1.trans h3, h2.trans h4⟩
 
+theorem download_same (s : Stack) (a : Nat) (r : Resp) :
+    (download s a r).1.http = r.http ∧ (download s a r).1.slots = r.slots := by
+  unfold download
+  split
+  · exact ⟨rfl, rfl⟩
+  · split
+    · exact ⟨rfl, rfl⟩
+    · split <;> exact ⟨rfl, rfl⟩
+
 /-- The response `Client.roundTrip` returns has slots that agree with its http response. -/
 theorem clientRoundTrip_agrees (s : Stack) (a : Nat) : AgreesO s (clientRoundTrip s a).resp := by
   unfold clientRoundTrip
@@ -148,10 +157,14 @@ theorem clientRoundTrip_agrees (s : Stack) (a : Nat) : AgreesO s (clientRoundTri
     obtain ⟨f1, f2, f3⟩ := exchange_facts s a
     have hp := readParse_agrees s (exchange s a).1 f1 f2 f3
     obtain ⟨c1, c2⟩ := clientLoop_same (s.clientAt a) 0
+      (download s a (match (parseResp s (autoRead s (exchange s a).1).1).ret with
+        | some e => ({ (parseResp s (autoRead s (exchange s a).1).1).resp with err := some e } : Resp)
+        | none => (parseResp s (autoRead s (exchange s a).1).1).resp)).1
+    obtain ⟨d1, d2⟩ := download_same s a
       (match (parseResp s (autoRead s (exchange s a).1).1).ret with
         | some e => ({ (parseResp s (autoRead s (exchange s a).1).1).resp with err := some e } : Resp)
         | none => (parseResp s (autoRead s (exchange s a).1).1).resp)
-    refine hp.of_eq (c1.trans ?_) (c2.trans ?_) <;> split <;> rfl
+    refine hp.of_eq ((c1.trans d1).trans ?_) ((c2.trans d2).trans ?_) <;> split <;> rfl
 
 theorem runWrappers_agrees (s : Stack) (a : Nat) (core : RT) (hc : AgreesO s core.resp) (ws : List (Nat × WAct)) :
     AgreesO s (runWrappers a core ws).resp := by
@@ -199,12 +212,18 @@ theorem deferred_agrees (s : Stack) (resp : Option Resp) (err : Option Err) (h :
   · exact agrees_fresh _ _ _
   · exact h r0 rfl
 
-theorem rebind_agrees (s : Stack) (r : Resp) (hs : r.slots = {}) (hb : r.bodyCached = false)
-    (he : r.http ≠ none → r.err = none) : AgreesO s (rebind s r).resp? := by
+theorem rebind_agrees (s : Stack) (a : Nat) (r : Resp) (hs : r.slots = {}) (hb : r.bodyCached = false)
+    (he : r.http ≠ none → r.err = none) : AgreesO s (rebind s a r).resp? := by
   have := readParse_agrees s r hs hb he
   unfold rebind
   simp only []
-  split <;> (intro r' hr'; simp only [StepOut.resp?, Option.some.injEq] at hr'; subst hr'; exact this)
+  split
+  · intro r' hr'; simp only [StepOut.resp?, Option.some.injEq] at hr'; subst hr'; exact this
+  · split
+    · split
+      · intro r' hr'; simp only [StepOut.resp?, Option.some.injEq] at hr'; subst hr'; exact this
+      · intro r' hr'; simp only [StepOut.resp?, Option.some.injEq] at hr'; subst hr'; exact this.of_eq rfl rfl
+    · intro r' hr'; simp only [StepOut.resp?, Option.some.injEq] at hr'; subst hr'; exact this
 
 theorem digestResend_agrees (s : Stack) (a : Nat) (r : Resp) (re : TOut) (hs : r.slots = {}) (hb : r.bodyCached = false)
     (he : r.err = none) : AgreesO s (digestResend Fixes.all s a r re).resp? := by
@@ -216,7 +235,7 @@ theorem digestResend_agrees (s : Stack) (a : Nat) (r : Resp) (re : TOut) (hs : r
     simp [Agrees, hs]
   | resp h =>
     simp only [digestResend, Fixes.all, if_true]
-    exact rebind_agrees s _ hs hb (fun _ => he)
+    exact rebind_agrees s a _ hs hb (fun _ => he)
 
 theorem digestStep_agrees (s : Stack) (a : Nat) (ok : Bool) (re : TOut) (r : Resp) (h : Agrees s r) :
     AgreesO s (digestStep Fixes.all s a ok re r).resp? := by
@@ -313,24 +332,32 @@ theorem stopOut_final (s : Stack) (a : Nat) (prev : Option Resp) (hp : ∀ r, pr
         | none => simpa using h2
 
 theorem doLoop_final (s : Stack) :
-    ∀ rem a prev, (∀ r, prev = some r → r.slots = {}) →
-      ∀ r, (doLoop Fixes.all s rem a prev).resp = some r → Final s r := by
-  intro rem
-  induction rem with
-  | zero =>
-    intro a prev hp
-    simp only [doLoop, (attempt_some Fixes.all rfl rfl s a prev).1, Bool.false_eq_true, if_false]
-    exact stopOut_final s a prev hp
-  | succ rem ih =>
+    ∀ fuel a prev, (∀ r, prev = some r → r.slots = {}) →
+      ∀ r, (doLoop Fixes.all s fuel a prev).resp = some r → Final s r := by
+  intro fuel
+  induction fuel with
+  | zero => intro a prev hp r hr; simp [doLoop, exhaustedOut] at hr
+  | succ fuel ih =>
     intro a prev hp
     simp only [doLoop, (attempt_some Fixes.all rfl rfl s a prev).1, Bool.false_eq_true, if_false]
     split
     · exact stopOut_final s a prev hp
     · split
-      · split
-        · intro r hr; simp [crashOut] at hr
-        · exact ih _ _ (by intro r hr; cases hr; rfl)
       · exact stopOut_final s a prev hp
+      · split
+        · split
+          · intro r hr; simp [crashOut] at hr
+          · rename_i hret _ _ _ r0 hr0
+            split
+            · -- the wait met a done context: the attempt's response, with the context's error
+              intro r hr
+              simp only [waitOut, Option.some.injEq] at hr
+              subst hr
+              rcases attempt_agrees s a prev with h | ⟨_, _, h3⟩
+              · left; exact (h r0 hr0).of_eq rfl rfl
+              · exact absurd h3 hret
+            · exact ih _ _ (by intro r hr; cases hr; rfl)
+        · exact stopOut_final s a prev hp
 
 theorem callDo_final (s : Stack) : ∀ r, (callDo Fixes.all s).resp = some r → Final s r := by
   intro r hr
